@@ -594,6 +594,106 @@ def search_failing_input(pid, divergences, budget=40):
     return found
 
 
+# The collector-core theorems take the object graph from what `Collect::trace` reports (the harness's payload types
+# report exactly what they hold).  That the crate's OWN provided impls and its trait-object adapter do so is C16;
+# for these properties it is a premise, checked here on the current tree, and a concrete miss found there is a
+# failing input of these properties too (which: see the filters).
+TRACE_PREMISE = {
+    # a strong pointer that tracing misses: a reachable value is destructed / its memory released
+    "C01": lambda d: ("does not report" in d and "strong pointer" in d) or "is dead after collection" in d or "while strongly held" in d,
+    # something reported that is not held strongly (a weak pointer reported as strong): retained garbage
+    "C02": lambda d: "does not hold with that strength" in d or "was retained" in d or "was not reclaimed" in d,
+    # a weak pointer that tracing misses: the shell it refers to is released under it
+    "C05": lambda d: "does not report" in d and "weak pointer" in d,
+}
+
+
+def trace_premise(chk, pid, seed):
+    from props import c16
+    try:
+        pr = c16.premise("quick", seed)
+    except Exception as e:  # pragma: no cover
+        chk.obligation("premise (C16): provided Collect impls and the dyn adapter trace exactly", False, "premise check failed to run: %s" % e)
+        return
+    bad_o = [(n, d) for (n, ok, d) in pr["obligations"] if not ok]
+    bad_c = [(n, d) for (n, ok, d) in pr["correspondence"] if not ok]
+    chk.obligation("premise (C16 theorems over the regenerated impl table and dyn adapter): tracing reports exactly the pointers held",
+                   not bad_o and not bad_c and not pr["violations"],
+                   "\n".join("%s: %s" % (n, d[:600]) for n, d in (bad_o + bad_c)[:4]) +
+                   "\n".join(v["desc"][:300] for v in pr["violations"][:4]))
+    chk.evaluations += pr.get("evaluations", 0)
+    chk.trusted.append("C16 engine (translator-collect, coq-collect, harness-collect) for the trace-exactness premise")
+    sel = TRACE_PREMISE[pid]
+    n = 0
+    for v in pr["violations"]:
+        if sel(v["desc"]) and n < 3:
+            n += 1
+            chk.violation("%s: %s [trace exactness fails for a provided impl: %s]" % (
+                pid, {"C01": "a strongly held pointer is not traced, so its target is collected while reachable",
+                      "C02": "a pointer that is not strongly held is traced as strong, so its target is retained",
+                      "C05": "a weakly held pointer is not traced, so the block it refers to is released under it"}[pid], v["desc"][:300]),
+                          v["replay"])
+
+
+# Panicking payload destructors are outside the Coq model (its destructors are total).  The properties that speak about
+# "exactly once" (C04) and about is_dropped / upgrade (C05) are nevertheless checked on the implementation for histories
+# in which a destructor unwinds out of a collection call or out of drop(arena): harness/src/droppanic.rs, a deterministic
+# enumeration with a model-independent oracle.  (A test, not a proof.)
+DROP_PANIC = {
+    "C04": lambda d: "destructor ran" in d or "double free" in d or "layout mismatch" in d or "Gc count reads" in d or "keep unwinding" in d or "scenario itself died" in d,
+    "C05": lambda d: "upgrade() returned" in d or "is_dropped()" in d,
+}
+
+
+def run_droppanic(release=False):
+    okh, outh, hbin = build_harness(release)
+    if not okh:
+        return None, "harness does not build: " + outh[-1500:]
+    rc, raw = vlib.run([hbin, "droppanic"], timeout=300)
+    viols, summ, last, nscen = [], None, None, 0
+    for l in raw.splitlines():
+        if l.startswith("NEXT "):
+            last = l[5:].strip()
+            nscen += 1
+        elif l.startswith("VIOL "):
+            name, _, what = l[5:].partition(" :: ")
+            viols.append((name, what))
+        elif l.startswith("SUMMARY "):
+            summ = dict(kv.split("=") for kv in l.split()[1:])
+    if (rc != 0 or summ is None) and last is not None:
+        # the implementation process died inside a scenario (memory corruption after a double destruction / bad free)
+        tail = [x for x in raw.splitlines() if not x.startswith(("NEXT ", "VIOL "))][-3:]
+        viols.append((last, "destructor ran / memory was released twice: the process died inside this scenario (rc=%s: %s)" % (rc, " | ".join(tail)[:300])))
+        summ = {"scenarios": str(nscen), "violations": str(len(viols)), "destructor_panics_observed": "1", "scenarios_with_leaked_victim_block": "?", "died": "1"}
+    if summ is None:
+        return None, "droppanic run failed rc=%s: %s" % (rc, raw[-1500:])
+    return (viols, summ), ""
+
+
+def drop_panic_scenarios(chk, pid, tier):
+    res, err = run_droppanic(False)
+    if res is None:
+        chk.correspondence("panicking-destructor scenarios ran on the implementation", False, err)
+        return
+    viols, summ = res
+    chk.correspondence("panicking-destructor scenarios ran on the implementation (%s scenarios, %s destructor panics observed)" % (
+        summ.get("scenarios"), summ.get("destructor_panics_observed")), int(summ.get("scenarios", 0)) > 0 and int(summ.get("destructor_panics_observed", 0)) > 0, str(summ))
+    chk.cov["drop_panic"] = summ
+    chk.notes.append("panicking destructors: %s of %s scenarios leave the block of the object whose destructor panicked unreturned "
+                     "(outside the property's quantifier; recorded, not charged)" % (summ.get("scenarios_with_leaked_victim_block"), summ.get("scenarios")))
+    chk.evaluations += int(summ.get("scenarios", 0))
+    sel = DROP_PANIC[pid]
+    seen = set()
+    for name, what in viols:
+        cls = re.sub(r"\d+", "N", what)[:60]
+        if not sel(what) or cls in seen or len(seen) >= 3:
+            continue
+        seen.add(cls)
+        chk.violation("%s: with a destructor that panics (caught by catch_unwind): %s [scenario %s]" % (pid, what, name),
+                      "# drop-panic scenario (harness/src/droppanic.rs); replay: python3 scripts/check.py %s --replay <this file>\n"
+                      "droppanic: %s\nobserved: %s\n" % (pid, name, what))
+
+
 def run_core(chk, pid, tier, seed, extra_cover_prefixes=()):
     chk.trusted = list(TRUSTED)
     chk.checker_cmd = "cd /verif/coq && coq_makefile -f _CoqProject -o Makefile && make (full .vo) ; coqc Props/%s.v with Print Assumptions" % pid
@@ -644,7 +744,11 @@ def run_core(chk, pid, tier, seed, extra_cover_prefixes=()):
         if v["property"] == pid:
             chk.violation("%s [script %s, step %d]" % (v["desc"], v["script"], v["line"]),
                           "# replay: python3 scripts/check.py %s --replay <this file>\n%s" % (pid, v["script_text"]), key=v["key"])
-    chk.evaluations = res["lines"]
+    if pid in TRACE_PREMISE:
+        trace_premise(chk, pid, seed)
+    if pid in DROP_PANIC:
+        drop_panic_scenarios(chk, pid, tier)
+    chk.evaluations = res["lines"] + chk.evaluations
     cov = {k: v for k, v in res["coverage"].items() if k.startswith(pid + ":") or any(k.startswith(p) for p in extra_cover_prefixes)}
     chk.cov["oracle_coverage_cells"] = cov
     chk.cov["op_histogram"] = res["op_histogram"]
@@ -664,6 +768,22 @@ def run_core(chk, pid, tier, seed, extra_cover_prefixes=()):
 def replay(pid, path):
     """Re-run a stored op script against the current /repo and the model; print both traces' verdict."""
     txt = open(path).read()
+    m = re.search(r"(?m)^droppanic: (.*)$", txt)
+    if m:
+        res, err = run_droppanic(False)
+        if res is None:
+            print(err)
+            return 1
+        hits = [(n, w) for (n, w) in res[0] if n == m.group(1).strip()]
+        print("scenario: %s" % m.group(1).strip())
+        for n, w in hits:
+            print("OBSERVED on the current tree: %s" % w)
+        print("violations observed on the current tree: %d" % len(hits))
+        return 1 if hits else 0
+    if re.search(r"(?m)^replay: impl=\S+ features=", txt):
+        # a failing input of the trace-exactness premise (a container value): replayed by the C16 engine
+        from props import c16
+        return c16.replay(path)
     ops = [l for l in txt.split("\n") if l.strip() and not l.startswith("#")]
     okh, outh, hbin = build_harness(False)
     if not okh:
